@@ -154,7 +154,7 @@ def run(ctx):
     ctx.require_events('ConvolvedFluxes.interpolate:post', 'SED.interpolate:post', 'SED.interpolate_variable:post', 'variable:node-checked',
                        'refused:convolved', 'refused:sed', 'refused:variable')
     ctx.require_regimes('single-aperture', 'unit:pc', 'unit:cm', 'sed-apertures:cm', 'above-table', 'on-knot')
-    n_it = 250 if ctx.quick else 2000
+    n_it = 250 if ctx.quick else 10000
     for it in range(n_it):
         n_ap = int(rng.integers(1, 9))
         n_m = int(rng.integers(1, 7))
